@@ -24,6 +24,7 @@ type F struct {
 	MapKey  string
 	MapVal  string
 	MapType string // type of the map value when MapVal is message/enum
+	Default string // proto2 [default = ...], in descriptor notation
 }
 
 // X is an extension field declared in a message scope.
@@ -142,6 +143,9 @@ func (f *File) field(scope string, fd F, msg *descriptorpb.DescriptorProto, oneo
 	out.Type = t.Enum()
 	if fd.Kind == "message" || fd.Kind == "enum" {
 		out.TypeName = proto.String(f.qualify(fd.Type))
+	}
+	if fd.Default != "" {
+		out.DefaultValue = proto.String(fd.Default)
 	}
 	if fd.Packed == 1 {
 		out.Options = &descriptorpb.FieldOptions{Packed: proto.Bool(true)}
